@@ -51,6 +51,9 @@ class Describer:
             for k, dv in (("space", D[0]), ("time", D[1]), ("quantity", D[2])):
                 if d[k] == dv and self.rng.random() < 0.5:
                     del d[k]
+            items = list(d.items())          # the order of the keys carries no meaning
+            self.rng.shuffle(items)
+            d = dict(items)
         return d
 
     def units_key(self, d, level, decl):
